@@ -295,6 +295,14 @@ def generate(repo=None, out_dir=None):
     need(len(freq.body) == 1 and isinstance(freq.body[0], ast.Raise)
          and ast.unparse(freq.body[0].exc.func) == 'ValueError', freq, "solve(): frequency check must raise ValueError")
     need(_norm("efield = kwargs.pop('efield', None)") in usrc, fn, "solve(): efield kwarg")
+    # the operator of every residual in solve()/multigrid()/krylov() is the VolumeModel built AFRESH from
+    # the model passed to this call (a cached / shared construction may describe another model)
+    need(_norm('vmodel = models.VolumeModel(model, sfield)') in usrc, fn,
+         "solve(): the volume-averaged model is no longer constructed afresh as models.VolumeModel(model, sfield)")
+    for n in ast.walk(fn):
+        if isinstance(n, ast.Assign) and any(ast.unparse(t) == 'vmodel' for t in n.targets) \
+                and _norm(ast.unparse(n)) != _norm('vmodel = models.VolumeModel(model, sfield)'):
+            bad(n, "solve(): vmodel re-assigned")
     need(_norm("always_return = kwargs.pop('always_return', False)") in usrc, fn, "solve(): always_return kwarg")
 
     get = find_top(lambda s: isinstance(s, ast.If) and _norm(ast.unparse(s.test)) == 'efieldisNone',
